@@ -40,4 +40,10 @@ let () =
 let () =
   register "tt.chain" (fun docs ->
       Stdlib.String.concat " | " (Stdlib.List.map (fun h -> show_parse (TextTape.parse (bytes_of_hex h))) docs))
+
+(* the cfg(not(target_arch = "x86_64")) scanners (TextTapeMore.v); the implementation side of these two
+   kinds is the harness run under Miri for a non-x86-64 target (props/C01_more.py, stream nonx86) *)
+let () =
+  register "tt.quote8" (function [h] -> pair_out (TextTapeMore.parse_quote_scalar_swar (bytes_of_hex h)) | _ -> "BADCASE");
+  register "tt.split_plain" (function [h] -> pair_out (TextTapeMore.split_at_scalar_plain (bytes_of_hex h)) | _ -> "BADCASE")
 (* <<< a_c01 *)
